@@ -178,6 +178,10 @@ def gen_function(c: Contract, prop: str, bounded=None) -> FunctionReport:
                         b[p] = result
                     elif p == "old":
                         b[p] = PyObj(s1.old)
+                    elif p in c.ghost_out:
+                        # ghost output: the final value of a local (arbitrary on paths that never define it)
+                        gv = s1.env.get(p)
+                        b[p] = coerce(gv, c.ghost_out[p]) if gv is not None else fresh(c.ghost_out[p], "ghost_" + p)
                     elif p in s1.old.env:
                         # parameters: current value (lists may have been mutated in place -> env updated)
                         b[p] = s1.env.get(p, s1.old.env[p]) if p in c.modifies else s1.old.env[p]
@@ -286,6 +290,8 @@ def solve_obligation(ob: Obligation, timeout_ms=10000, use_cli=True):
     s = z3.Solver()
     s.set("timeout", timeout_ms)
     s.add(*ob.hyps)
+    from .engine import text_literal_axioms
+    s.add(*text_literal_axioms())
     s.add(z3.Not(ob.goal))
     r = s.check()
     ob.time_s = time.time() - t0
